@@ -1,7 +1,7 @@
 (* C24 — proofs: UTF-8 round trip (C24/Utf8.v) and equality of the two pipelines *)
 From Coq Require Import List NArith ZArith Bool Lia.
 Import ListNotations.
-From Cffi Require Import C35.PyStr C24.Utf8 C23.Model C24.Model.
+From Cffi Require Import C35.PyStr C24.Utf8 C23.Model C24.Model C24.Gen.
 Open Scope N_scope.
 
 Lemma universal_nl_id c : no_cr c -> universal_nl c = c.
@@ -10,8 +10,14 @@ Proof.
   destruct (x =? 13) eqn:E; [apply N.eqb_eq in E; congruence|]. rewrite IH. auto.
 Qed.
 
-Lemma read_text_of_encoded s b : utf8_encode s = Some b -> read_text b = Some (universal_nl s).
-Proof. intros H. unfold read_text. rewrite (utf8_roundtrip _ _ H). reflexivity. Qed.
+Lemma read_text_of_encoded s b : utf8_encode s = Some b -> read_text Utf8 b = Some (universal_nl s).
+Proof. intros H. unfold read_text, decode_with. rewrite (utf8_roundtrip _ _ H). reflexivity. Qed.
+
+(* the tool's codecs, as extracted from the source, are all plain UTF-8 — this is where a change of an
+   `encoding=` argument breaks the proofs below *)
+Lemma tool_codecs_are_utf8 :
+  c_pyfile the_codecs = Utf8 /\ c_cdef the_codecs = Utf8 /\ c_csrc the_codecs = Utf8 /\ c_output the_codecs = Utf8.
+Proof. repeat split; reflexivity. Qed.
 
 Section Pipelines.
 Variable ffi : Type.
@@ -21,25 +27,28 @@ Variable emit : ffi -> str.
 
 Theorem read_sources_is_direct : forall name cdef csrc bc bs,
   utf8_encode cdef = Some bc -> utf8_encode csrc = Some bs ->
-  gen_src_read_sources ffi make_ffi emit name bc bs =
+  gen_src_read_sources ffi make_ffi emit the_codecs name bc bs =
   direct ffi make_ffi emit name (universal_nl cdef) (universal_nl csrc).
 Proof.
   intros name cdef csrc bc bs Hc Hs. unfold gen_src_read_sources, direct.
+  destruct tool_codecs_are_utf8 as [_ [-> [-> ->]]].
   rewrite (read_text_of_encoded _ _ Hs), (read_text_of_encoded _ _ Hc). reflexivity.
 Qed.
 
 Corollary read_sources_is_direct_no_cr : forall name cdef csrc bc bs, no_cr cdef -> no_cr csrc ->
   utf8_encode cdef = Some bc -> utf8_encode csrc = Some bs ->
-  gen_src_read_sources ffi make_ffi emit name bc bs = direct ffi make_ffi emit name cdef csrc.
+  gen_src_read_sources ffi make_ffi emit the_codecs name bc bs = direct ffi make_ffi emit name cdef csrc.
 Proof.
   intros name cdef csrc bc bs Nc Ns Hc Hs. rewrite (read_sources_is_direct _ _ _ _ _ Hc Hs).
   rewrite !universal_nl_id; auto.
 Qed.
 
 Theorem exec_python_is_direct : forall script var b, utf8_encode script = Some b ->
-  gen_src_exec_python ffi find_ffi emit b var = direct_of_script ffi find_ffi emit (universal_nl script) var.
+  gen_src_exec_python ffi find_ffi emit the_codecs b var =
+  direct_of_script ffi find_ffi emit (universal_nl script) var.
 Proof.
   intros script var b H. unfold gen_src_exec_python, direct_of_script.
+  destruct tool_codecs_are_utf8 as [-> [_ [_ ->]]].
   rewrite (read_text_of_encoded _ _ H). reflexivity.
 Qed.
 
@@ -51,9 +60,21 @@ Proof. intros name cdef csrc out H. unfold direct, write_text in H. apply utf8_r
 
 (* undecodable input files are rejected, nothing is written *)
 Theorem undecodable_input_rejected : forall name bc bs,
-  utf8_decode bc = None \/ utf8_decode bs = None -> gen_src_read_sources ffi make_ffi emit name bc bs = None.
+  utf8_decode bc = None \/ utf8_decode bs = None ->
+  gen_src_read_sources ffi make_ffi emit the_codecs name bc bs = None.
 Proof.
-  intros name bc bs [H|H]; unfold gen_src_read_sources, read_text; rewrite H; auto.
+  intros name bc bs [H|H]; unfold gen_src_read_sources, read_text;
+    destruct tool_codecs_are_utf8 as [_ [-> [-> ->]]]; unfold decode_with; rewrite H; auto.
   destruct (utf8_decode bs); auto.
+Qed.
+
+(* what the proofs above exclude: with 'utf-8-sig' on an input, a prelude that starts with U+FEFF loses it *)
+Theorem utf8sig_input_loses_bom :
+  let cs := {| c_pyfile := Utf8; c_cdef := Utf8; c_csrc := Utf8Sig; c_output := Utf8 |} in
+  exists cdef csrc bc bs, utf8_encode cdef = Some bc /\ utf8_encode csrc = Some bs /\
+    gen_src_read_sources str (fun n c s => c ++ s) (fun x => x) cs [109] bc bs <>
+    direct str (fun n c s => c ++ s) (fun x => x) [109] cdef csrc.
+Proof.
+  exists [105], [65279; 120], [105], [239;187;191;120]. vm_compute. repeat split; discriminate.
 Qed.
 End Pipelines.
